@@ -1,7 +1,7 @@
 (* C06, reader against specification: the attribute message (0x000C) - REFUTATION for version 2.
    The specification pads name, datatype and dataspace to multiples of 8 bytes in version 1 only.  ParseAttributeMessage
-   (Model/CodecAttr.v dec_attribute: [adv s = if version <? 3 then align8 s else s]; tied to the Go code by C11/C07)
-   also pads in version 2.  A version 2 attribute whose name / datatype / dataspace sizes are not multiples of 8 is
+   before notes/fixes/c06-attribute-v2-padding.patch (Model/CodecAttr.v dec_attribute_gen false: [adv s = if version <? 3 then
+   align8 s else s]; the ties of C11/C07 compare the Go code with the variant the source tree implements) also pads in version 2.  A version 2 attribute whose name / datatype / dataspace sizes are not multiples of 8 is
    therefore decoded from the wrong offsets: usually an error, but not always.  Witness: attribute "a", 1-byte unsigned
    integer, simple dataspace [16] (4-byte lengths), 16 data bytes - accepted by the strict specification decoder; the
    reader returns, without error, a datatype of size 16908296 (version 0), a SCALAR dataspace and 6 data bytes. *)
@@ -17,7 +17,7 @@ Lemma attribute_v2_padding_refuted :
     Ok ({| as_version := 2; as_cset := 0; as_name := [97]; as_dtype := DFixed 1 1 0 0 0 false 0 8;
            as_space := {| dss_version := 2; dss_type := 1; dss_dims := [16]; dss_maxdims := None |};
            as_data := [7; 7; 2; 0; 0; 0; 0; 0; 0; 0; 1; 2; 3; 4; 5; 6] |}, []) /\
-  dec_attribute false attr_v2_witness =
+  dec_attribute_gen false false attr_v2_witness =
     Ok {| atp_name := [97];
           atp_dt := {| dt_class := 0; dt_version := 0; dt_size := 16908296; dt_cbf := 0; dt_props := [0; 1; 16; 0] |};
           atp_ds := {| dsp_version := 2; dsp_type := 0; dsp_dims := [1]; dsp_maxdims := None |};
